@@ -4,7 +4,7 @@ CONSTANTS
  MaxReinit = 0 BSChoices = {} FixBlockSize = TRUE  FixLostWorker = TRUE
  CountCalls = TRUE
  NW = 2  NW0 = 2  NWChoices = {2}  BS = 2  Total = 3  Chunk = 1  HdrSz = 1  TailSz = 2
- Timeout = FALSE  Spurious = FALSE  MayFail = TRUE
+ Timeout = FALSE  Spurious = FALSE  MayFail = TRUE MayFailMain = FALSE
  Gives = {0, 1, 100}  Spaces = {0, 1, 100}
  FlushActs = {}
  MaxCalls = 7
